@@ -16,3 +16,8 @@ open Neutrino.Ban
 #print axioms C13_banPeer_enforced
 #print axioms C13_banned_refused
 #print axioms C13_source_facts
+#print axioms C13_isBanned_pure
+#print axioms C13_isBanned_tracks_bans
+#print axioms isBanned_true_iff
+#print axioms mem_ban
+#print axioms mem_unban
